@@ -724,8 +724,12 @@ func c12r3(c *core.Ctx) {
 			}
 		}
 		_ = v
+		where := ""
+		if ok && !okv {
+			where = " (Clone sets it to something else at " + p.Pos(inits[0].Store.Pos()) + ")"
+		}
 		c.Check(okv, "vm.VirtualMachine.Clone|field:"+n, posOf(p, cd),
-			"field "+n+" written by option "+optFields[f]+" must be copied from the original by Clone()"+ifs(ok && !okv, " (Clone sets it to something else at "+p.Pos(inits[0].Store.Pos())+")"))
+			"field "+n+" written by option "+optFields[f]+" must be copied from the original by Clone()"+where)
 	}
 }
 
